@@ -300,6 +300,30 @@ def oracle(ctx, spec):
 
 
 MODES = ["decode-edit-encode", "encode-edit-encode", "from-stat-edit-encode", "preset-flags"]
+RENDERS = [None, "str", "repr", "asbytes", "longname"]
+
+
+def snapshot(a):
+    return {"size": a.st_size, "uid": a.st_uid, "gid": a.st_gid, "mode": a.st_mode, "atime": a.st_atime,
+            "mtime": a.st_mtime, "ext": [(bytes(k.encode("utf-8") if isinstance(k, str) else k),
+                                           bytes(v.encode("utf-8") if isinstance(v, str) else v))
+                                          for k, v in a.attr.items()],
+            "flags": a._flags}
+
+
+def render(a, how):
+    from paramiko.message import Message
+    if how == "str":
+        str(a)
+    elif how == "repr":
+        repr(a)
+    elif how == "asbytes":
+        a.asbytes()
+    else:       # SFTPServer._read_folder: msg.add_string(attr.filename); msg.add_string(attr); attr._pack(msg)
+        a.filename = "entry"
+        m = Message()
+        m.add_string(a.filename)
+        m.add_string(a)
 
 
 def gen_second(rng, first):
@@ -355,8 +379,24 @@ def history_case(ctx, case):
         a._flags = case["prior"]
     prior = a._flags
     fill(a, second, fresh_dict=case.get("fresh_dict", True))
-    raw, canon = pack_existing(a)
     flags, fields, ext, wire = expected_of(second)
+    # rendering the object (str / repr / asbytes, or being written as a listing entry's longname the way
+    # SFTPServer._read_folder does just before _pack) must not change what it carries
+    how = case.get("render")
+    if how:
+        before = snapshot(a)
+        try:
+            render(a, how)
+        except Exception:  # noqa  (formatting problems of odd values are not this property's concern)
+            pass
+        after = snapshot(a)
+        if after != before:
+            ctx.fail("render-mutates-fields",
+                     "rendering an attribute object (%s) changes its fields, so a later _pack encodes fields that "
+                     "were absent (a listing entry is rendered as its longname just before it is packed)" % how,
+                     case=case, expected=before, observed=after)
+            return prior, pack_existing(a)[1]
+    raw, canon = pack_existing(a)
     if raw is None:
         ctx.fail("stale-flags-reencode-raises",
                  "_pack of a previously decoded/encoded and then edited object raises although its fields are valid "
@@ -495,7 +535,8 @@ def run(ctx):
                 "32-/64-bit boundary sets and random, str and bytes keys/values incl. empty and non-ASCII, float "
                 "times, random trailing bytes; a malformed stream (out-of-range values, byte-colliding keys, "
                 "truncated / re-flagged / duplicate-key / random blocks); objects with a history (decode -> edit -> "
-                "encode -> decode, encode / edit / encode, from_stat objects, preset _flags); non-trivial = distinct case with at "
+                "encode -> decode, encode / edit / encode, from_stat objects, preset _flags, each with and without "
+                "rendering the object (str / repr / asbytes / listing longname) before _pack); non-trivial = distinct case with at "
                 "least one field or extended pair present (or a non-empty buffer)")
     ctx.trusted += ["model coq/Model/C33.v is hand-written; tied to paramiko/sftp_attr.py (_pack, _unpack, _from_msg) "
                     "by this differential run (vm_compute of the model's own definitions, no extraction)",
@@ -581,14 +622,15 @@ def run(ctx):
         first["float_times"] = False
         if not in_range(first):
             continue
-        case = {"first": first, "second": gen_second(rng, first), "mode": mode, "fresh_dict": rng.random() < 0.5}
+        case = {"first": first, "second": gen_second(rng, first), "mode": mode, "fresh_dict": rng.random() < 0.5,
+                "render": RENDERS[(i // len(MODES)) % len(RENDERS)]}
         if mode == "preset-flags":
             case["prior"] = rng.choice([0xF, FLAG_EXTENDED, FLAG_EXTENDED | 0xF, 0xFFFFFFFF, 0x10, 0x7FFFFFF0,
                                         rng.getrandbits(4), rng.getrandbits(4) | FLAG_EXTENDED, rng.getrandbits(32)])
         r = history_case(ctx, case)
         if r is None:
             continue
-        ctx.count(("history", repr(case)), kind="history-" + mode)
+        ctx.count(("history", repr(case)), kind="history-" + mode + ("+render" if case["render"] else ""))
         cases.append((case, r[0], r[1]))
     bad = mm(ctx, "run_pack_obj", "(Z * attrs)",
                                [("(%s, %s)" % (coq(pr), coq_attrs(c["second"])), canon) for c, pr, canon in cases])
